@@ -29,10 +29,10 @@ CLAIMED = {
  "C05": ("acc", "TLC model checking of Accumulator.tla (algorithm transcription = naive forest on all bounded forests, apply/revert) + one implementation test per TLC transition replayed through the real accumulator (export shim) with symbolic terms evaluated by the real hashes + TLC -simulate histories + real chains through the public API + AccBlocks.tla (which leaves a block hands the accumulator, in which order and with which flags; ephemeral spends, same-block contract life-cycles) replayed as real signed blocks",
          "Roots, leaf count and every tracked proof (old, updated, added, spent) equal the naive Merkle forest after every apply and revert for all forests within the bound; every TLC transition is replayed on real elements of all six kinds; beyond the bound the spec's definitions are evaluated over real leaf hashes for sizes to 2^12 and apply/revert interleavings to depth 12; public-API chains check ForEachTreeNode and proof maintenance.",
          "Trusted: collision-free hashing, hterm term evaluator, the verif export shim (forwards only), TLC.", "DESIGN.md 4.2, 5/C05"),
- "C12": ("wire", "Semantics.tla (pre-image of every ID and signature hash in the Wire combinator language, written from the rule 'everything that has an effect, nothing that is a witness') evaluated by TLC for recorded real values and hashed by the harness against ID()/SigHash(); effect/witness table exported by TLC drives reflection-based single-leaf mutation; SemanticsDistinct model-checked; era/purpose replay and block-content mutation on real chains",
+ "C12": ("wire", "Semantics.tla (pre-image of every ID and signature hash in the Wire combinator language, written from the rule 'everything that has an effect, nothing that is a witness') evaluated by TLC for recorded real values and hashed by the harness against ID()/SigHash(); effect/witness table exported by TLC drives reflection-based single-leaf mutation; SemanticsDistinct model-checked; era/purpose replay and block-content mutation on real chains; SemanticsPure.tla: the hash entry points as users of hasher pools, invariant Pure under call histories with aborted calls, replayed on the real code against a fresh-process baseline",
          "BLAKE2b of the spec's pre-image equals every ID, derived ID, commitment, header/block ID and signature hash in every era for generated and real transactions and blocks; IDs change iff an effect-bearing leaf changes; pre-images of distinct derivations differ; signatures are refused across eras and purposes; every content mutation of a block is refused or changes its ID. Found F2 (known, needs a hard fork).",
          "Trusted: wirebridge reflection walker, x/crypto BLAKE2b as the hash evaluator, TLC.", "DESIGN.md 4.8, 5/C12"),
- "C13": ("pow", "Difficulty.tla relational clauses; TLC-enumerated timestamp-choice skeletons executed on the real ApplyHeader/ApplyBlock; every recorded step validated by TLC (DifficultyTrace.tla over BigNat)",
+ "C13": ("pow", "Difficulty.tla relational clauses; TLC-enumerated timestamp-choice skeletons executed on the real ApplyHeader/ApplyBlock; every recorded step validated by TLC (DifficultyTrace.tla over BigNat); DifficultyMag.tla: constructed states in every era at magnitudes where difficulty, total work and the clamp bounds cross every 64-bit limb boundary (clause WorkSum)",
          "Every recorded header application satisfies the era's clamp, non-zero work, floored-inverse relations, monotone work, header-only = full-block state and the header acceptance rule with verdicts for honest and defective headers; skeletons cross every era boundary on a lattice of network shapes.",
          "Trusted: BigNat, ancestor timestamps supplied as a node would, difficulty < 2^200. Relational blind spots: a formula change that stays inside the clamp.", "DESIGN.md 4.3, 5/C13"),
  "C17": ("rhp", "Contracts.tla skeletons enumerated/simulated by TLC, executed on the real RHP4 constructors; results validated by TLC (ContractsTrace.tla over BigNat: post-conditions + transcribed consensus rules) and submitted to the real ValidateV2Transaction; design model ContractsDesign.tla model-checked; exhaustive size sequences (append/free/refresh) with CapacityMonotone; Admission.tla (what a host must refuse per RPC) compared with the real Validate methods, every admitted request built and submitted to consensus",
